@@ -21,7 +21,7 @@ m("C01", "C01-jmp-no-bias", "R01-decode:OP_JMP", ("vm.go", "\t\t\tSbx := int(ins
 # ---- C02
 m("C02", "C02-callg-no-remove-caller", "R02-tailframe:callGFunction:tail", ("vm.go", "\tif tailcall {\n\t\tL.currentFrame = L.RemoveCallerFrame()\n\t}", "\tif tailcall && gfnret >= 0 {\n\t\tL.currentFrame = L.RemoveCallerFrame()\n\t}"))
 m("C02", "C02-return-paren-call-tail", "R02-tailframe:compileReturnStmt", ("compile.go", "\t\t\tif ex.AdjustRet { // return (func())\n\t\t\t\treg += compileExpr(context, reg, ex, ecnone(0))\n\t\t\t} else {", "\t\t\tif false { // return (func())\n\t\t\t\treg += compileExpr(context, reg, ex, ecnone(0))\n\t\t\t} else {"))
-m("C02", "C02-removecaller-no-relink", "R02-tailframe:RemoveCallerFrame:relinks", ("state.go", "\tparentFrame.Parent = parentsParentFrame\n", ""))
+m("C02", "C02-removecaller-no-relink", "R02-tailframe:RemoveCallerFrame:relinks", ("state.go", "\tparentsParentFrame := parentFrame.Parent\n\t*parentFrame = *currentFrame\n\tparentFrame.Parent = parentsParentFrame\n", "\t*parentFrame = *currentFrame\n"))
 # ---- C03
 m("C03", "C03-inner-arm-no-close", "R03-close:(*LState).PCall$1$1:reclaim", ("state.go", "\t\t\t\t\t\tls.closeUpvalues(base)\n", ""))
 m("C03", "C03-raise-closes-all-again", "R03-close:(*LState).raiseError:closer", ("state.go", "func (ls *LState) raiseError(level int, format string, args ...interface{}) {\n", "func (ls *LState) raiseError(level int, format string, args ...interface{}) {\n\tif !ls.hasErrorFunc {\n\t\tls.closeAllUpvalues()\n\t}\n"))
@@ -104,7 +104,7 @@ m("C15", "C15-atan2-args-swapped", "R15-mathmap:entry:atan2", ("mathlib.go", "ma
 m("C15", "C15-modf-results-swapped", "R15-mathmap:entry:modf", ("mathlib.go", "\t\tv2 = math.Copysign(0, x)\n\t}\n\tL.Push(LNumber(v1))\n\tL.Push(LNumber(v2))\n\treturn 2", "\t\tv2 = math.Copysign(0, x)\n\t}\n\tL.Push(LNumber(v2))\n\tL.Push(LNumber(v1))\n\treturn 2"))
 m("C15", "C15-format-c-via-fmt", "R15-bytes:(LNumber).Format:c-not-via-fmt", ("value.go", "\tcase 'c':\n\t\t// C's %c writes one byte; Go's writes the UTF-8 encoding of the code point\n\t\tdefaultFormat(string([]byte{byte(int64(nm))}), f, 's')\n", ""), ("value.go", "\tcase 'b', 'd', 'U':", "\tcase 'b', 'c', 'd', 'U':"))
 # ---- C16
-m("C16", "C16-lvasnumber-own-reader", "R16-onereader:LVAsNumber", ("value.go", "\tcase LString:\n\t\tif num, err := parseNumber(string(lv)); err == nil {\n\t\t\treturn num\n\t\t}\n\t}\n\treturn LNumber(0)", "\tcase LString:\n\t\tif num, err := strconv.ParseFloat(string(lv), 64); err == nil {\n\t\t\treturn LNumber(num)\n\t\t}\n\t}\n\treturn LNumber(0)"), ("value.go", "import (\n\t\"context\"\n\t\"fmt\"\n\t\"os\"\n)", "import (\n\t\"context\"\n\t\"fmt\"\n\t\"os\"\n\t\"strconv\"\n)"))
+m("C16", "C16-lvasnumber-own-reader", "R16-onereader:LVAsNumber", ("value.go", "\tcase LString:\n\t\tif num, err := parseNumber(string(lv)); err == nil {\n\t\t\treturn num\n\t\t}\n\t}\n\treturn LNumber(0)", "\tcase LString:\n\t\tif num, err := strconv.ParseFloat(string(lv), 64); err == nil {\n\t\t\treturn LNumber(num)\n\t\t}\n\t}\n\treturn LNumber(0)"), ("value.go", "\t\"os\"\n)", "\t\"os\"\n\t\"strconv\"\n)"))
 m("C16", "C16-q-falls-through", "R16-q:LString.Format", ("value.go", "\tcase 'q':\n\t\tf.Write(quoteLuaString(string(st)))\n\tdefault:", "\tdefault:"))
 m("C16", "C16-strftime-minute-is-month", "R16-strftime:%M:meaning", ("utils.go", "'M': \"04\"", "'M': \"01\""))
 m("C16", "C16-ostime-utc", "R16-time:osTime:local-zone", ("oslib.go", "t := time.Date(year, time.Month(month), day, hour, min, sec, 0, time.Local)", "t := time.Date(year, time.Month(month), day, hour, min, sec, 0, time.UTC)"))
